@@ -396,24 +396,32 @@ def oracle_tensor_factorization(scen, sc, T: Tables, X):
     if not isinstance(out, SumLayer):
         raise Bad("template-structure", "output is not a sum layer")
     (top,) = sc.layer_inputs(out)
-    tin = sc.layer_inputs(top) if isinstance(top, HadamardLayer) else []
-    if len(tin) != 2 or not isinstance(tin[1], InputLayer):
-        raise Bad("template-structure", "the output sum of a tensor train should sit on a Hadamard of the chain and the last factor")
-    last_sl, cur = tin[1], tin[0]
+
+    def split(h):
+        """(running layer, factor) of a two-input Hadamard step; the factor is the input layer over the later mode
+        (Hadamard products are commutative: the order of the two inputs is not part of the documented formula)"""
+        hin = list(sc.layer_inputs(h)) if isinstance(h, HadamardLayer) else []
+        if len(hin) != 2:
+            raise Bad("template-structure", "a tensor-train step should be a Hadamard product of the chain and one factor")
+        a, b = hin
+        if max(sc.layer_scope(a)) > max(sc.layer_scope(b)):
+            a, b = b, a
+        if not isinstance(b, InputLayer):
+            raise Bad("template-structure", "the later mode of a tensor-train step is not an input layer")
+        return a, b
+
+    cur, last_sl = split(top)
     inner_sls = []
     while not isinstance(cur, InputLayer):
         if not isinstance(cur, SumLayer):
             raise Bad("template-structure", f"expected a chain sum layer, found {type(cur).__name__}")
-        hs = sc.layer_inputs(cur)
         embs, below = [], None
-        for h in hs:
-            hin = sc.layer_inputs(h) if isinstance(h, HadamardLayer) else []
-            if len(hin) != 2 or not isinstance(hin[1], InputLayer):
-                raise Bad("template-structure", "a chain step should be a Hadamard of the chain and one embedding")
-            if below is not None and hin[0] is not below:
+        for h in sc.layer_inputs(cur):
+            a, b = split(h)
+            if below is not None and a is not below:
                 raise Bad("template-structure", "the Hadamard layers of one chain step do not share the running layer")
-            below = hin[0]
-            embs.append(hin[1])
+            below = a
+            embs.append(b)
         if len(embs) != rank:
             raise Bad("template-structure", f"a chain step has {len(embs)} embeddings, expected rank={rank}")
         inner_sls.insert(0, embs)
